@@ -50,6 +50,9 @@ RedundancySignalAgrees ==
 \* the handshake is exercised in every branch (vacuity guard: these must be VIOLATED)
 SomeRedSilk   == ~(xst.k # "start" /\ xst.mode = MODE_SILK /\ \E f \in EncFrames(xst.mode, xst.tell, xst.B, xst.want, xst.c2s, xst.rbWant, xst.cbr, Reserve, DirZero) : f.red)
 SomeRedHybrid == ~(xst.k # "start" /\ xst.mode = MODE_HYBRID /\ \E f \in EncFrames(xst.mode, xst.tell, xst.B, xst.want, xst.c2s, xst.rbWant, xst.cbr, Reserve, DirZero) : f.red /\ f.main < xst.B - f.rb)
+ObsSet == {[red |-> r, c2s |-> c, rb |-> b] : r \in BOOLEAN, c \in BOOLEAN, b \in {0, 1, 2, 3, 4, 9, 10, 11, 12, 13, 14, 257, 258}}
+ExplainsClosedForm == xst.k = "start" => \A mode \in {MODE_SILK, MODE_HYBRID, MODE_CELT}, len \in 0..14, obs \in ObsSet :
+                         DecFrameExplains(mode, len, obs) <=> DecFrameAllows(mode, len, obs)
 PaddingOK == xst.k = "start" => \A len \in {0, 1, 2, 3, 100, 251, 252, 253, 600, 1275} : \A padTo \in {3, 4, 5, 100, 255, 256, 257, 258, 300, 511, 512, 513, 514, 1000, 1276} :
                 (len + 3 <= padTo) => PaddingInvisible(72, len, padTo)
 
@@ -331,7 +334,7 @@ RepSeq(g, k) == IF k <= 0 THEN <<>> ELSE g \o RepSeq(g, k - 1)
 BurstFormOK == \A pol \in BurstPols \cap Pols, U \in Durs, L \in 2..8 :
                  BurstPrefix \o RepSeq(BurstGroup(pol, U), BurstReps(pol, L)) \o BurstSuffix(pol, L, U)
                    = FullSchedule(pol, Five \o [j \in 1..L |-> TRUE] \o <<FALSE>>, 0, U)
-EmitBursts == (xn = 0) => \A pol \in BurstPols \cap Pols, U \in Durs, ms \in {400, 500, 1000, 3000, 10000} :
+EmitBursts == (xn = 0) => \A pol \in BurstPols \cap Pols, U \in Durs, ms \in {400, 500, 1000, 1500, 3000, 10000} :
                  LET L == (ms * 2) \div (5 * U) IN
                  L < 2 \/ PrintT("BURST " \o pol \o " " \o ToString(U) \o " " \o ToString(L) \o " | " \o Toks(BurstPrefix) \o "| "
                                  \o Toks(BurstGroup(pol, U)) \o "| " \o ToString(BurstReps(pol, L)) \o " | " \o Toks(BurstSuffix(pol, L, U)))
